@@ -23,9 +23,13 @@
      -> SendReq -> "sent" -> TransportRaise | TransportReturn -> "open" -> CloseResp -> "got"
      -> Process -> "ready" | "raised" -> RaiseOut -> "idle";  "ready"/ctl="done" -> Return -> "idle"
    The transport's answer is a parameter of the actions: the exhaustive specification (MCSpec)
-   derives it from the server model and the injected fault, GraphTrace takes it from the log.
+   takes the server model's answer or -- for ONE request of the first call, any one, chosen when
+   the request is sent -- any fault; every later call is answered by the healthy server (the
+   retry).  GraphTrace takes the answer from the log and checks it against the server model.
+   `out` is the outcome of the last finished call; all bookkeeping restarts with each call, so the
+   behaviours share their prefixes and their retries (5*10^5 states for <= 3 nodes).
 
-   FAULT KINDS (fault = [at, kind, code]; at = index of the request in the first call, -1 none)
+   FAULT KINDS (an injected fault is [at, kind, code]; at = request index within the call)
      "http" (HTTPError code), "url" (URLError), "non2xx" (status code without exception),
      "badjson", "nonobject" (valid JSON, not an object), "badutf8", "nofield" (object without the
      field the caller needs; token and site requests only), "readerr" (read() raises OSError).
